@@ -78,3 +78,39 @@ void h_C08_epoch_roundtrip_stratum(void)
 	ASSERT(r.u == i.u, "instant -> unix time -> instant is the identity");
 	SENTINEL("epoch roundtrip");
 }
+
+/* ---- the cache of open zone files (__tzob_zif): whatever was looked up
+ * before, the zone file returned for a zone is THAT zone's file */
+#if !defined REPLAY
+/* zone files are told apart by an id: the stub's zif for zone name "zN" is &g_zif[N] */
+static int g_zif[8];
+static unsigned g_opened, g_closed;
+static unsigned g_zone_asked;	/* set by the echs_zone contract: which zone's name was handed out last */
+zif_t zif_open(const char *fn) { (void)fn; g_opened++; return (zif_t)&g_zif[g_zone_asked & 7U]; }
+void zif_close(zif_t z) { (void)z; g_closed++; }
+#endif
+
+/* zone names by contract: the three zone objects used below are 0x40, 0x80,
+ * 0xc0 (make_tzob(1..3)); interning itself (hash, string area) is C05.make_obint's business */
+static const char g_nm[4][3] = {"z0", "z1", "z2", "z3"};
+const char *echs_zone(echs_tzob_t z)
+__CPROVER_assigns(g_zone_asked)
+__CPROVER_ensures(__CPROVER_return_value == g_nm[(z >> 6U) & 3U] && g_zone_asked == ((z >> 6U) & 3U));
+
+void h_C07_tzob_zif(void)
+{
+	IN_RANGE(unsigned, q0, 1, 3); IN_RANGE(unsigned, q1, 1, 3); IN_RANGE(unsigned, q2, 1, 3); IN_RANGE(unsigned, q3, 1, 3);
+	const echs_tzob_t zo[4] = {0U, 0x40U, 0x80U, 0xc0U};
+	memset(tmfu, 0, sizeof(tmfu));
+	memset(zmfu, 0, sizeof(zmfu));
+	g_opened = g_closed = 0U;
+	(void)__tzob_zif(zo[q0]);
+	(void)__tzob_zif(zo[q1]);
+	(void)__tzob_zif(zo[q2]);
+	zif_t z = __tzob_zif(zo[q3]);
+	ASSERT(z != NULL, "a zone file is returned");
+	ASSERT(z == (zif_t)&g_zif[1] || z == (zif_t)&g_zif[2] || z == (zif_t)&g_zif[3], "the file returned is one of the zone files opened");
+	ASSERT(z == (zif_t)&g_zif[q3], "the zone file used for a zone is that zone's own file, whatever was looked up before");
+	if (q0 == 1U && q1 == 2U && q2 == 2U) { SENTINEL("tzob_zif use count overtakes"); }
+	SENTINEL("tzob_zif");
+}
